@@ -140,9 +140,34 @@ theorem commonBlockdim_refines (bds : List (List Nat)) (d e : List Nat) (r : Lis
   obtain ⟨out, hw, hs, href⟩ := walk_refines d.sum (walkFuel (d :: e :: r)) 0 (d :: e :: r) (by simp)
     (fun c hc => ⟨hpos c hc, by simpa using hsum c hc⟩) (by unfold walkFuel Elemwise.measure; omega)
   refine ⟨out, ?_, by simpa using hs, href⟩
+  -- positive chunks: the total is not zero, so the zero-length shortcut does not apply
+  have hdpos : d.sum ≠ 0 := by
+    cases d with
+    | nil => simp at hdl
+    | cons x t =>
+      have := hpos (x :: t) (by simp) x (by simp)
+      simp only [List.sum_cons]
+      omega
   unfold commonBlockdim
-  simp only [hall, Bool.false_eq_true, if_false, hnt, hany]
+  simp only [hall, Bool.false_eq_true, if_false, hnt, hany, hdpos]
   exact hw
+
+/-- several chunkings of a zero-length dimension: the single empty chunk -/
+theorem commonBlockdim_zero (bds : List (List Nat)) (d e : List Nat) (r : List (List Nat))
+    (hnt : (bds.filter (fun c => c.length > 1)).eraseDups = d :: e :: r)
+    (hsum : ∀ c ∈ d :: e :: r, c.sum = 0) (hall : bds.all List.isEmpty = false) : commonBlockdim bds = some [0] := by
+  have hany : (d :: e :: r).any (fun x => x.sum != d.sum) = false := by
+    cases ha : (d :: e :: r).any (fun x => x.sum != d.sum) with
+    | false => rfl
+    | true =>
+      obtain ⟨c, hc, hne⟩ := List.any_eq_true.mp ha
+      have h1 := hsum c hc
+      have h2 := hsum d (by simp)
+      simp [h1, h2] at hne
+  have hd0 : d.sum = 0 := hsum d (by simp)
+  rw [hd0] at hany
+  unfold commonBlockdim
+  simp only [hall, Bool.false_eq_true, if_false, hnt, hd0, hany, if_true]
 
 /-- if the totals differ the function raises (`ValueError("Chunks do not add up to same value")`) -/
 theorem commonBlockdim_raises (bds : List (List Nat)) (d e : List Nat) (r : List (List Nat))
